@@ -19,6 +19,11 @@ pub use ip_frag_range::*;
 mod ip_frag_version_spec_id;
 pub use ip_frag_version_spec_id::*;
 
+/// Verification hook: association list with the `HashMap` surface used by
+/// [`IpDefragPool`] (the std hash map is out of reach of a bit-precise solver).
+#[cfg(feature = "verif-hooks")]
+pub mod verif_map;
+
 /// Maximum length of a defragmented packet as [`u16`].
 pub const MAX_IP_DEFRAG_LEN_U16: u16 = u16::MAX;
 
